@@ -206,7 +206,7 @@ def vg(job, shard_env=None):
     j = dict(job)
     j["valgrind"] = True
     j["bg"] = True
-    j["env"] = {"VERIF_THREADS": "1"}
+    j["env"] = {"VERIF_THREADS": "1", "VERIF_LN_NOFLIPS": "1"}
     j["name"] = "valgrind:" + job["name"]
     j["classes"] = MEMORY + ["valgrind"]
     return j
@@ -244,10 +244,10 @@ PROPERTIES.update({
             ss("ln", ALLSUB, MEMORY, "ss/LN/guard", ["--places", GUARD]),
             ss("equal", None, MEMORY, "ss/equal"),
             ss("wrong-needle", None, MEMORY, "ss/wrong-needle"),
-        ] + [bs_heap("find,rfind,count", i, 12, (200, 448)) for i in range(12)] + [
+        ] + [bs_heap("find,rfind,count", i, 8, (140, 448)) for i in range(8)] + [
             vg(ss("e", FWD + "," + REV + ",twoway,rk,rtwoway,rrk,pp-sse2,pp-avx2", MEMORY, "ss/E2/heap", ["--letters", "ab", "--places", "heap", "--aligns", "0"], q=["--nmax", "3", "--hmax", "9"], t=["--nmax", "4", "--hmax", "11"])),
             vg(ss("epad", FWD + ",pp-sse2,pp-avx2,pf-sse2,pf-avx2", MEMORY, "ss/E2pad/heap", ["--places", "heap"], q=["--nmax", "2", "--hmax", "3"], t=["--nmax", "3", "--hmax", "5"])),
-            vg(ss("ln", FWD + "," + REV + ",twoway,rtwoway", MEMORY, "ss/LN/heap", ["--places", "heap", "--lengths", "33", "--maxu", "1", "--pieces", "1", "--pad", "4"])),
+            vg(ss("ln", FWD + "," + REV + ",twoway,rtwoway", MEMORY, "ss/LN/heap", ["--places", "heap", "--lengths", "33", "--maxu", "1", "--pieces", "1", "--pad", "2"])),
         ],
     },
     "C14": {
@@ -469,7 +469,7 @@ def bs_variants(ops, classes, ks=("k4", "k3", "k7", "k8", "k9")):
                     "tier_args": {"quick": ["--l1", "13", "--l2", "8", "--l3", "6"], "thorough": ["--l1", "18", "--l2", "11", "--l3", "9"]}})
         out.append({"name": "bs[%s]/sparse/%s" % (k, ops), "build": vb("bs", k), "classes": classes,
                     "args": ["sparse", "--tier", "{tier}", "--ops", ops, "--subjects", BS_SUBJ[k].replace(",swar", "").replace("swar,", "")],
-                    "tier_args": {"quick": ["--lmax", "100", "--ks", "1"], "thorough": ["--lmax", "230", "--ks", "2"]}})
+                    "tier_args": {"quick": ["--lmax", "100", "--lsingle", "100", "--ks", "1"], "thorough": ["--lmax", "160", "--lsingle", "300", "--ks", "2"]}})
     return out
 
 
@@ -537,7 +537,7 @@ PROPERTIES.update({
         "engine": "wk under valgrind/callgrind",
         "technique": "exhaustive enumeration of a declared grid of adversarial (family, size) instances executed on the real code, work measured as exact instruction counts (callgrind) against a declared linear budget",
         "rule": "an instance is (operation, adversarial family, haystack size n, needle size m); the grid is enumerated completely, one callgrind process per instance",
-        "explanation": "Work is observed, not inferred: each instance runs Finder::new+find, FinderRev::new+rfind, complete find_iter / rfind_iter traversals or one-shot memmem::find/rfind inside one function whose executed-instruction count (Ir) callgrind reports exactly and deterministically, so every loop - including ones a change adds - is seen without hooks. Families: a^(m-1)b in a^n, in (a^(m-1)c)^r and in (a^(m-2)b^(m-1))^r (every a is a vector-searcher candidate that fails late: the family on which the 32-byte cap matters), b a^(m-1) in a^n, a^m in a^n (dense matches), periodic needles in haystacks of their near-periods, Fibonacci and Thue-Morse words, needles whose two rare bytes recur at every position, a huge candidate-free prefix followed by dense late-failing false candidates (keeps the adaptive prefilter on), Rabin-Karp's 2^32-collision needle a^(m-33)ba^32, a small-period needle against blocks of its own period, and dense matches of 0/1/2-byte needles; sizes n in {2^12, 2^15} (thorough: up to 2^20) x m in {8,32,33,250,1000,4000} (thorough: up to 16000). Verdict: Ir <= 256*(n+m) + 50000 for every instance (worst ratio on the unchanged tree: 102 Ir per byte, the per-match call overhead of rfind_iter over dense 1-byte matches). Super-linear work per byte grows with m without bound, so a fixed constant separates as long as the grid contains large m.",
+        "explanation": "Work is observed, not inferred: each instance runs Finder::new+find, FinderRev::new+rfind, complete find_iter / rfind_iter traversals or one-shot memmem::find/rfind inside one function whose executed-instruction count (Ir) callgrind reports exactly and deterministically, so every loop - including ones a change adds - is seen without hooks. Families: a^(m-1)b in a^n, in (a^(m-1)c)^r and in (a^(m-2)b^(m-1))^r (every a is a vector-searcher candidate that fails late: the family on which the 32-byte cap matters), b a^(m-1) in a^n, a^m in a^n (dense matches), periodic needles in haystacks of their near-periods, Fibonacci and Thue-Morse words, needles whose two rare bytes recur at every position, a huge candidate-free prefix followed by dense late-failing false candidates (keeps the adaptive prefilter on), Rabin-Karp's 2^32-collision needle a^(m-33)ba^32, a small-period needle against blocks of its own period, and dense matches of 0/1/2-byte needles; sizes n in {2^12, 2^15} (thorough: up to 2^20) x m in {8,32,33,250,1000,4000} (thorough: up to 16000). Verdict: Ir <= 100*(n+m) + 320*matches + 50000 for every instance, where matches is the number of offsets an iterator yields (on the unchanged tree the worst per-byte work beyond that allowance is 39 Ir/byte, and the per-match call overhead at most 126 Ir). Super-linear work per byte grows with m without bound, so a fixed constant separates as long as the grid contains large m.",
         "assumptions": ["instruction count under callgrind is the measure of 'elementary steps' (a change that is linear but with a larger constant stays below the budget: it is not a violation)", "the budget constants are declared in bin/work.py, not fitted at run time", "a bound on enumerated families and sizes, not an asymptotic proof"],
         "jobs": [{"name": "work/callgrind", "handler": WORK.handler, "classes": None}],
     },
@@ -623,6 +623,31 @@ PROPERTIES["C04"]["jobs"] += [
     nl(B("ss"), "rfinder,rmemmem,riter-first", RESULT, "ss/NL2/rev"),
     nl(B("ss"), "rfinder", RESULT, "ss/NL3/rev", "abc"),
 ]
+
+
+
+# ---- additions after the third round of independently seeded changes
+for pid, op in (("C01", "find"), ("C02", "rfind"), ("C07", "count")):
+    PROPERTIES[pid]["jobs"] += [
+        bs("long-single", op, RESULT, name="bs/long-single/%s (length-threshold sizes)" % op),
+        {"name": "bs[k7]/long-single/%s" % op, "build": V("bs", "k7"), "classes": RESULT, "args": ["long-single", "--tier", "{tier}", "--ops", op, "--subjects", "neon"], "tiers": ("thorough",)},
+    ]
+    PROPERTIES[pid]["explanation"] += " `long-single`: haystacks of V*{8,16,32,33,64,65,128,129}+d bytes (and 256/1024/2048/4096 for the real code) with their only match at each of the first and last 6V positions, at every start offset, for every needle role and both neighbour fills - the sizes at which code gated on a length threshold is first entered (the generic code at VN<2,4,8> enters vector-relative thresholds at 16..1032 bytes)."
+PROPERTIES["C05"]["jobs"] += [bs("long-single", "find,rfind,count", MEMORY, name="bs/long-single/vn", extra=["--subjects", "vn2,vn4,vn8"])]
+
+
+
+def bs_heap_fast(ops, i, n, tier_lmax):
+    j = vg({"name": "bs/heap(release build)/%s/%d" % (ops, i), "build": B("bs", "fast"), "args": ["heap", "--tier", "{tier}", "--ops", ops, "--shard", "%d/%d" % (i, n)],
+            "tier_args": {"quick": ["--lmax", str(tier_lmax[0])], "thorough": ["--lmax", str(tier_lmax[1])]}, "classes": MEMORY})
+    return j
+
+
+# In a build WITHOUT debug assertions an out-of-slice read is not pre-empted by
+# a debug_assert! panic (seeded change R3K): the same exact-heap placements
+# run under valgrind in the plain release profile too.
+PROPERTIES["C05"]["jobs"] += [bs_heap_fast("find,rfind,count", i, 4, (100, 300)) for i in range(4)]
+PROPERTIES["C05"]["explanation"] += " The valgrind placements are repeated in a plain release build, where no debug assertion can pre-empt an out-of-slice read."
 
 HOOK_COMMITS = ["ffdf165", "556bbde", "0f24165", "8fa21ee"]
 
